@@ -1963,6 +1963,10 @@ class Interp:
         env = frame['env']
         if e.id in env:
             return env[e.id]
+        # free variables of a nested function under contract: the enclosing function's locals the harness provides (closure)
+        clo = getattr(self, 'closure', None)
+        if clo and e.id in clo:
+            return clo[e.id]
         return self.lookup_global(e.id, frame)
 
     def lookup_global(self, name, frame):
